@@ -20,6 +20,8 @@ var c09Builders = []string{
 	"&cv = 1 + 2", "&cd = d6 + 1", "&cdef = d + 1", "&ca = this.base + 1; &ca.base = 10", "&cn = a + 1", "&cf = f(2)", "&ce = 2d + cn",
 	"xs.push(4)", "dd.z = [1]", "dd['q'] = {'w': 1}", "xs[0] = 'first'", "ys.push(xs[1])", "ee.f = 1.25", "s = s + '!'", "t = `a{a}b`", "u = \"q\\\"uo'te\"", "w = '\\n\\t\\\\'",
 	"arr2 = [xs[0], [xs[1]]]", "mix = [f, &cv, dd.k]", "fd = {'fn': f, 'cv': &cv}", "e1 = E5 + 1", "func ce() { E3 * 2 }", "&cx = E2 + a",
+	"bm = xs.push", "bk = dd.keys", "bc = ceil", "bs = [xs.pop, toStr]", "bd = {'m': xs.kh}",
+	"big2 = [0]*500; i = 0; while i < 100 { big2.push(i); i = i + 1 }; big2.len()", "big3 = [1]*300; i = 0; while i < 250 { big3.push([i]); i = i + 1 }; 0",
 	"func fam() { b2 + f + 2a8 + 2c8 }", "&cfam = p1 + f + 3a9", "func fmix() { 6a10 + 100 }", "&cmix = 2c8 + 200", "func fbit() { 6 | 1 }", "func fnd() { 2d + 1 }",
 	"uni = '中文🎲é'", "empty = ''", "zero = 0", "t2 = true", "lng = [1..20]", "dup = [1]*5",
 }
@@ -28,7 +30,8 @@ var c09FollowUps = []string{
 	"a", "a + 1", "b * 2", "s", "s + 'x'", "n ?? 5", "xs", "xs[0]", "xs[-1]", "xs.len()", "xs.sum()", "xs.push(9); xs", "xs.pop()", "ys", "dd", "dd.k", "dd['j']", "dd.keys()", "dd.len()", "dd.new = 3; dd",
 	"nest", "nest[1].a", "nest[0][1][1]", "big", "big + 0", "fl", "sm + z", "f(1)", "g()", "h(1, 2)", "r2()", "dflt()", "fib(6)", "cv", "cd", "cdef", "ca", "&ca.base", "&ca.base = 20; ca", "cn", "cf", "ce",
 	"t", "u", "w", "arr2", "mix", "mix[0](3)", "fd.fn(4)", "fd.cv", "e1", "ce()", "cx", "uni", "empty", "toStr(dd)", "toStr(nest)", "repr(s)", "typeId(f)", "typeId(&cv)", "&cv", "lng.sum()", "dup", "a = a + 1; a", "xs == xs", "dd == dd", "xs[0:2]", "s[1:3]", "`{xs}{dd}{cv}`", "f", "&cd", "cv.compute()", "dir(xs)",
-	"fam()", "cfam", "fmix()", "cmix", "fbit()", "fnd()",
+	"fam()", "cfam", "fmix()", "cmix", "fbit()", "fnd()", "bm(7); xs", "bk()", "bc(1.5)", "bs[1](2)", "bd.m(1)", "big2.len()", "big2[550]", "big3.len()", "bm",
+
 	"hk", "hk.keys()", "hs", "hn", "toStr(hk)", "&hc.at", "hf()", "ht", "hs + hs", "hk == hk",
 }
 
@@ -120,6 +123,46 @@ func hasAliasing(vm *ds.Context) bool {
 	}
 	vm.Attrs.Range(func(k string, e *ds.VMValue) bool { walk(e, 0); return true })
 	return alias
+}
+
+// c09HasNative reports whether a variable (at any depth) holds a native function or object.
+func c09HasNative(vm *ds.Context) bool {
+	found := false
+	seen := map[any]bool{}
+	var walk func(v *ds.VMValue, depth int)
+	walk = func(v *ds.VMValue, depth int) {
+		if v == nil || depth > 30 || found {
+			return
+		}
+		switch v.TypeId {
+		case ds.VMTypeNativeFunction, ds.VMTypeNativeObject:
+			found = true
+		case ds.VMTypeArray:
+			if seen[v.Value] {
+				return
+			}
+			seen[v.Value] = true
+			if a, ok := v.ReadArray(); ok {
+				for _, e := range a.List {
+					walk(e, depth+1)
+				}
+			}
+		case ds.VMTypeDict:
+			if seen[v.Value] {
+				return
+			}
+			seen[v.Value] = true
+			if dd, ok := v.ReadDictData(); ok {
+				dd.Dict.Range(func(k string, e *ds.VMValue) bool { walk(e, depth+1); return true })
+			}
+		case ds.VMTypeComputedValue:
+			if cd, ok := v.ReadComputed(); ok && cd.Attrs != nil {
+				cd.Attrs.Range(func(k string, e *ds.VMValue) bool { walk(e, depth+1); return true })
+			}
+		}
+	}
+	vm.Attrs.Range(func(k string, e *ds.VMValue) bool { walk(e, 0); return true })
+	return found
 }
 
 type c09Obs struct{ err, ret, detail, vars, panicV string }
@@ -303,6 +346,13 @@ func c09Case(w *fw.W, idx int, r *fw.Rand) {
 		return
 	}
 	if err != nil {
+		if c09HasNative(a) {
+			// native functions / bound methods are outside the values the property lists: a
+			// snapshot holding one may be refused (with an error), it must not restore into
+			// something that misbehaves
+			w.Count("refused_states_with_native_values", 1)
+			return
+		}
 		w.Violate(idx, "json", "json|restore-error", desc, "the snapshot does not decode: "+err.Error()+" / "+trunc(string(snap), 300), nil)
 		return
 	}
